@@ -148,10 +148,10 @@ def handle (s : St) (line : String) : Except String (St × String) := do
   | "replace" =>
     let n ← (← j.getObjVal? "n").getNat?
     let v ← jValue (← j.getObjVal? "v")
-    return finish s (opReplace fuel s.h n v)
+    return finish s (opReplaceRec fuel s.h n v)
   | "pop" =>
     let n ← (← j.getObjVal? "n").getNat?
-    return finish s (opPop fuel s.h n)
+    return finish s (opReplaceRec fuel s.h n .none)
   | "hash" =>
     let n ← (← j.getObjVal? "n").getNat?
     return finish s (fill freeHash fuel s.h n)
